@@ -17,6 +17,7 @@ import PolytuneModel.Proto.Triples
 import PolytuneModel.Proto.Validate
 import PolytuneModel.Prim.AesRng
 import PolytuneModel.Proto.ABitCheck
+import PolytuneModel.Prim.TransposePortable
 /-! `ptmodel`: one request per line on stdin, one response per line on stdout. -/
 open PolytuneModel PolytuneModel.Buf
 
@@ -178,6 +179,10 @@ def step (st : DState) (line : String) : DState × String :=
   | ["prim", "transpose", rows, m] =>
     match rows.toNat?, parseHexBytes m with
     | some r, some m => (st, "transpose " ++ hexOf (transposeSpec m r))
+    | _, _ => (st, "bad-op")
+  | ["prim", "transposeP", rows, m] =>   -- the ALGORITHM of portable.rs (16x8 blocks, mask and shift), the subject of C20_transpose_portable
+    match rows.toNat?, parseHexBytes m with
+    | some r, some m => (st, "transpose " ++ hexOf (TransposeP.transposePortable m r))
     | _, _ => (st, "bad-op")
   | ["prim", "aes", k, x] =>
     match parseHexBytes k, parseHexBytes x with
